@@ -79,6 +79,8 @@ type env struct {
 	respC   map[string][]byte
 	dmu     sync.Mutex
 	rmu     sync.Mutex
+	opTime  map[string]time.Duration
+	opCount map[string]int
 	full    *keyset // the client key pair ParseArgs drew (1536 random bits)
 	fast    *keyset // a second client key pair with a 48-bit private exponent (cheap modexp; bulk split enumeration)
 }
@@ -120,7 +122,19 @@ func b32(b []byte) string { return base32.StdEncoding.EncodeToString(b) }
 func (e *env) callRaw(format string, args ...interface{}) string {
 	e.dmu.Lock()
 	defer e.dmu.Unlock()
-	return e.d.Call(format, args...)
+	t0 := time.Now()
+	rep := e.d.Call(format, args...)
+	op := format
+	if i := strings.IndexByte(op, ' '); i > 0 {
+		op = op[:i]
+	}
+	if e.opTime == nil {
+		e.opTime = map[string]time.Duration{}
+		e.opCount = map[string]int{}
+	}
+	e.opTime[op] += time.Since(t0)
+	e.opCount[op]++
+	return rep
 }
 
 func trunc(s string, n int) string {
@@ -407,6 +421,11 @@ func main() {
 			r.Notes["section_wall_s_"+s.name] = fmt.Sprintf("%.1f", time.Since(t0).Seconds())
 		}
 	}
+	drv := map[string]string{}
+	for op, d := range e.opTime {
+		drv[op] = fmt.Sprintf("%d calls, %.1f s", e.opCount[op], d.Seconds())
+	}
+	r.Notes["driver_ops"] = drv
 	e.cleanup()
 	r.Finish()
 }
